@@ -985,7 +985,10 @@ func Check(propID, tier string) int {
 				continue
 			}
 			code := pr.cmd.ProcessState.ExitCode()
-			if code == 2 {
+			// the Go runtime's own fatal errors (stack overflow, out of memory, concurrent map
+			// access) also exit with status 2: those are deaths inside a run, not trouble of ours
+			runtimeFatal := strings.Contains(pr.stderr.String(), "fatal error:") || strings.Contains(pr.stderr.String(), "runtime: goroutine stack exceeds")
+			if code == 2 && !runtimeFatal {
 				if !infra { // one stack is enough
 					fmt.Fprintf(os.Stderr, "worker %d failed (infrastructure):\n%s\n", w, tail(pr.stderr.String(), 14))
 				}
